@@ -32,13 +32,24 @@ def cases(ctx, budget):
 
 
 def check_one(ctx, data, kinds, m, chunks, lines, pending):
-    calls, flat, err, cb = dc.run_decoder(chunks, m, use_callback=True)
+    typed = {10000: [], 13120: [], 9: []}
+    as_ints = bool(chunks) and all(len(c) == 1 for c in chunks) and (len(data) % 2 == 0)
+    calls, flat, err, cb = dc.run_decoder(chunks, m, use_callback=True, as_ints=as_ints, typed_callbacks=typed)
+    if as_ints:
+        ctx.count('fed_as_single_ints')
     replay = {'stream': data.hex(), 'tokens': kinds, 'max_payload': m, 'chunks': [c.hex() for c in chunks]}
     if err is not None:
         ctx.violation('C04/decoder-raised', 'on_data raised %s' % err, replay)
         return
     lines.append('pydec %d %s' % (m, ','.join(c.hex() or '-' for c in chunks) or '='))
     lines.append('scan %d %s' % (m, data.hex()))
+    # callbacks registered for one message type see exactly the returned messages of that type, in order
+    for t, sink in typed.items():
+        want = [d['offset'] for d in flat if int(d['header'].message_type) == t]
+        got = [a[3] for a in sink if len(a) >= 4]
+        if got != want:
+            ctx.violation('C04/typed-callbacks-differ', 'callback for type %d saw offsets %s, returned messages of that type are at %s' %
+                          (t, got[:10], want[:10]), replay)
     pending.append((replay, calls, flat, cb, data, m))
 
 
